@@ -502,6 +502,7 @@ func genFmt(w *out.W, tier string) {
 		fmtOracle(w, id, c)
 	}
 	genCk(w, tier, r)
+	genURL(w, tier)
 }
 
 func openAndFiles(format string, t []fent, root string) ([]kv, error) {
